@@ -5,6 +5,7 @@ evaluation steps) is enumerated completely (or, for long programs in the
 quick tier, sampled - and the evidence then says so).
 """
 import json
+import re
 
 import common
 from common import Rng, mix, run_req, final_response, printed, outcome
@@ -50,8 +51,18 @@ def summarize(res):
     }
 
 
+def _value_only(oc):
+    """A request that also loads definitions wraps its value in a summary ("Loaded f in x.gdn, and the
+    expression evaluated to V."); the response of a :resume reports V alone."""
+    if oc and oc[0] == "ok" and isinstance(oc[1], str):
+        m = re.search(r", and the expression evaluated to (.*)\.$", oc[1], re.S)
+        if m:
+            return [oc[0], m.group(1)] + list(oc[2:])
+    return list(oc)
+
+
 def same_outcome(a, b):
-    if a == b:
+    if a == b or _value_only(a) == _value_only(b):
         return True
     # assertion failures: first path says "Assertion failed", resume path gives the detail
     if a[0] == "err" and b[0] == "err" and a[2:] == b[2:]:
@@ -92,11 +103,27 @@ class C08(SessimProp):
                                "for zq in [4, 5] { if zq > 4 { break } println(\"zb\") }",
                                "let zu = 1 zu += 2", "if 1 < 2 { println(\"zi\") }"])
             main = main[:-1] + [tail] if rng.chance(0.5) else main + [tail]
-        return {"defs": defs, "main": main, "plan_seed": rng.u64(), "tier": tier}
+        layout = rng.fork("layout").weighted([(6, "two"), (2, "one_with_path"), (2, "two_with_path")])
+        return {"defs": defs, "main": main, "plan_seed": rng.u64(), "tier": tier, "layout": layout}
 
     # ---- running one plan -------------------------------------------
-    def scenario(self, defs, main_src, plan):
-        steps = [{"op": "send", "raw": run_req(defs)}]
+    def scenario(self, defs, main_src, plan, layout="two"):
+        plain = common.run_req
+        path = None
+        if layout == "one_with_path":
+            # definitions and code arrive in ONE request that names a file the session has not seen:
+            # the toplevel moves to that file's namespace while (or after) the request is evaluated
+            steps = [{"op": "send", "raw": plain("0")}]
+            main_src = defs + "\n" + main_src
+            path = "proj/c08_main.gdn"
+        elif layout == "two_with_path":
+            path = "proj/c08_main.gdn"
+            steps = [{"op": "send", "raw": plain(defs, path=path)}]
+        else:
+            steps = [{"op": "send", "raw": plain(defs)}]
+
+        def run_req(src, rid=None):  # the requests of this scenario carry the path
+            return plain(src, rid, path=path)
         kind = plan["kind"]
         if kind == "baseline":
             steps.append({"op": "send", "raw": run_req(main_src), "trace": True})
@@ -160,7 +187,7 @@ class C08(SessimProp):
         return None
 
     def run_plan(self, ex, case, plan, base):
-        sc = self.scenario(case["defs"], " ".join(case["main"]), plan)
+        sc = self.scenario(case["defs"], " ".join(case["main"]), plan, case.get("layout", "two"))
         res = ex.run(sc)
         if plan["kind"] == "multi":
             n_exp = len(plan["ks"])
@@ -172,7 +199,7 @@ class C08(SessimProp):
 
     def baseline(self, ex, case, after_error=False):
         plan = {"kind": "resume_after_error"} if after_error else {"kind": "baseline"}
-        res = ex.run(self.scenario(case["defs"], " ".join(case["main"]), plan))
+        res = ex.run(self.scenario(case["defs"], " ".join(case["main"]), plan, case.get("layout", "two")))
         if res.get("executor_died"):
             return None, res
         return summarize_cached(res), res
@@ -252,7 +279,7 @@ class C08(SessimProp):
                     "class": cls,
                     "key": f"C08:{cls}",
                     "detail": detail,
-                    "replay": {"defs": case["defs"], "main": case["main"], "plan": plan},
+                    "replay": {"defs": case["defs"], "main": case["main"], "plan": plan, "layout": case.get("layout", "two")},
                 })
                 if len(out["violations"]) >= 3:
                     break
@@ -273,7 +300,7 @@ class C08(SessimProp):
                         cls, detail = v
                         out["violations"].append({
                             "class": cls, "key": f"C08:{cls}", "detail": detail,
-                            "replay": {"defs": case["defs"], "main": case["main"], "plan": plan}})
+                            "replay": {"defs": case["defs"], "main": case["main"], "plan": plan, "layout": case.get("layout", "two")}})
                         break
             elif b2 is not None and b2["dead"]:
                 bump("resume_after_error_baseline_panicked(C07/C09 territory, skipped)")
@@ -311,7 +338,7 @@ class C08(SessimProp):
     # ---- replay and minimisation ------------------------------------
     def replay(self, ctx, rp):
         ex = ctx["ex"]
-        case = {"defs": rp["defs"], "main": rp["main"]}
+        case = {"defs": rp["defs"], "main": rp["main"], "layout": rp.get("layout", "two")}
         after_err = rp["plan"]["kind"] == "resume_after_error"
         base, _ = self.baseline(ex, case, after_error=after_err)
         if base is None or base["dead"]:
@@ -333,7 +360,7 @@ class C08(SessimProp):
         budget = [150]
 
         def fails(main_c, defs_c):
-            case = {"defs": defs_c, "main": main_c}
+            case = {"defs": defs_c, "main": main_c, "layout": rp.get("layout", "two")}
             base, _ = self.baseline(ex, case)
             if base is None or base["dead"] or not base["rounds"]:
                 return None
@@ -372,7 +399,7 @@ class C08(SessimProp):
         if best:
             plan, detail = best
             nv = dict(v)
-            nv["replay"] = {"defs": defs, "main": main, "plan": plan}
+            nv["replay"] = {"defs": defs, "main": main, "plan": plan, "layout": rp.get("layout", "two")}
             nv["detail"] = detail
             # confirm twice
             a = self.replay(ctx, nv["replay"])
